@@ -591,6 +591,7 @@ InvokeMacro(m, args, kw, s, E) ==
 
 (* -- filters (the subset the interpreter models exactly) ------------------------------------ *)
 LazyFilters == {"map", "select", "reject", "selectattr", "rejectattr"}
+VLazy(items, err) == [t |-> "lazy", v |-> items, err |-> err]
 RECURSIVE SumInts(_), InsertSorted(_, _), SortInts(_), JoinWith(_, _, _, _), RevSeq(_)
 SumInts(xs) == IF xs = <<>> THEN 0 ELSE NumOf(Head(xs)) + SumInts(Tail(xs))
 RevSeq(xs) == IF xs = <<>> THEN <<>> ELSE Append(RevSeq(Tail(xs)), Head(xs))
@@ -619,6 +620,16 @@ SortReals(xs) == SortRealsAcc(xs, <<>>)
 FirstExtreme(xs, op) ==          \* op = "lteq": first minimum; "gteq": first maximum
     LET best(i) == \A j \in 1..Len(xs) : FCmp(op, xs[i], xs[j]) IN
     xs[CHOOSE i \in 1..Len(xs) : best(i) /\ \A k \in 1..(i - 1) : ~best(k)]
+
+RECURSIVE Batches(_, _, _), UniqueReals(_, _)
+Batches(xs, n, fill) ==
+    IF xs = <<>> THEN <<>>
+    ELSE IF Len(xs) >= n THEN <<VList(SubSeq(xs, 1, n))>> \o Batches(SubSeq(xs, n + 1, Len(xs)), n, fill)
+    ELSE <<VList(xs \o (IF fill.t # "none" THEN [i \in 1..(n - Len(xs)) |-> fill] ELSE <<>>))>>
+UniqueReals(xs, acc) ==
+    IF xs = <<>> THEN acc
+    ELSE IF \E j \in 1..Len(acc) : FCmp("eq", Head(xs), acc[j]) THEN UniqueReals(Tail(xs), acc)
+    ELSE UniqueReals(Tail(xs), Append(acc, Head(xs)))
 
 \* sep.join(items) with every part already a string value
 JoinWith(parts, sep, i, acc) ==
@@ -689,8 +700,19 @@ ApplyFilter(n, v, args, kw, s, E) ==
       [] n = "list" ->
            LET it == IterItems(v) IN IF ~it.ok THEN Fail(s, it.err) ELSE R(VList(it.v), s)
       [] n = "reverse" ->
-           \* returns an iterator object (truthy, unprintable): only modelled when consumed at once
-           Fail(s, "EXCLUDED")
+           \* of a list / tuple / range: an iterator object (truthy, unprintable) - a stream like the lazy filters'
+           IF v.t = "list" /\ ~IsView(v) /\ args = <<>> /\ kw.n = <<>> THEN R(VLazy(RevSeq(v.v), ""), s)
+           ELSE Fail(s, "EXCLUDED")
+      [] n = "batch" ->
+           \* a generator of lists of `linecount` items, the last one filled up when fill_with is given
+           IF v.t = "list" /\ ~IsView(v) /\ Len(args) \in {1, 2} /\ kw.n = <<>> /\ args[1].t = "int" /\ args[1].n >= 1
+           THEN R(VLazy(Batches(v.v, args[1].n, IF Len(args) = 2 THEN args[2] ELSE VNone), ""), s)
+           ELSE Fail(s, "EXCLUDED")
+      [] n = "unique" ->
+           \* a generator of the first occurrences (numbers: 1, 1.0 and true are one value; strings compare
+           \* case-insensitively and are not modelled)
+           IF v.t = "list" /\ ~IsView(v) /\ args = <<>> /\ kw.n = <<>> /\ AllReal(v.v) THEN R(VLazy(UniqueReals(v.v, <<>>), ""), s)
+           ELSE Fail(s, "EXCLUDED")
       [] n = "sum" ->
            IF v.t = "list" /\ AllNum(v.v) /\ args = <<>> /\ kw.n = <<>> THEN R(VInt(SumInts(v.v)), s)
            ELSE IF v.t = "list" /\ ~IsRange(v) /\ (\A i \in 1..Len(v.v) : IsReal(v.v[i])) /\ args = <<>> /\ kw.n = <<>>
@@ -832,7 +854,6 @@ ApplyTest(n, v, args, s, E) ==
 \* the interpreter state (the interaction log) makes the stream EXCLUDED from that item on.
 \* (In async mode the same filters return async iterators, which only the consumers documented to accept them
 \* can read; the generators only write those - see the known finding F23 for the others.)
-VLazy(items, err) == [t |-> "lazy", v |-> items, err |-> err]
 AttrNames == {"a", "b", "c", "n", "k", "x", "y", "zz", "ra", "rk", "rp", "ri"}
 AttrOk(a) == a.t = "int" \/ (a.t = "str" /\ KeyName(a) \in AttrNames)
 PureFilters == {"int", "float", "string", "abs", "length", "count", "first", "last", "e", "escape", "safe", "default", "d",
